@@ -14,6 +14,7 @@
  *          mode=durs     case = month boundary; every instant of it x a list of durations
  *          mode=fixup    case = (year, month 1..24); inner loop over d,H,M,S,ms
  *          mode=epoch    case = day; secs=3|all  stride=N (with secs=all)
+ *          mode=dayfrac  case = month boundary; the two all-day instants around it x durations with a sub-day part
  *
  * Three kinds of instant are told apart: `allday' (H == 0xff), `allsec'
  * (ms == 0x3ff, what the iCalendar parser produces) and `ms' (a millisecond
@@ -469,6 +470,115 @@ mode_durs(void)
 	}
 }
 
+/* ---- mode=dayfrac: an all-day instant plus a duration that is not a whole number of days ---- */
+/* Neither instant.h nor the README says to which side the sub-day part is dropped, so the clause is only:
+ * the result is an all-day instant again, a calendar day, and it lies within base + floor(d / 1 day) ..
+ * base + ceil(d / 1 day), i.e. less than a day away from the true elapsed time; and the difference of the
+ * result and the base is that whole number of days.  Directly and through echs_event_range() (what
+ * `echse unroll --format %e' prints for a DATE event with a DURATION like P1DT12H). */
+static void
+mode_dayfrac(void)
+{
+	static const int64_t whole[] = {0, 1, 2, 27, 28, 29, 30, 31, 59, 60, 365, 366, 1461, 36524};
+	static const int64_t frac[] = {1, 999, 1000, 59999, 60000, 3599999, 3600000, 43199999, 43200000, 43200001, 86399000, 86399999};
+	char failed[8];
+	long n_left = 0;
+	mk_boundaries();
+	vd_shape("dayfrac");
+	for (int k = 0; k < nbnd; k++) {
+		if (!vd_next()) continue;
+		{
+			struct cv_ymd_s c0 = cv_civil_from_days(bnd[k].day), c1 = cv_civil_from_days(bnd[k].day + 1);
+			vd_desc("all-day instants %04d-%02d-%02d and %04d-%02d-%02d plus/minus (w days + r ms), w in {0,1,2,27..31,59,60,365,366,1461,36524}, "
+				"r in {1,999,1000,59999,60000,3599999,3600000,43199999,43200000,43200001,86399000,86399999}",
+				c0.y, c0.m, c0.d, c1.y, c1.m, c1.d);
+		}
+		n_eval = n_nontriv = 0;
+		/* once an input of a (sign, magnitude) class has failed in this case the rest of the class is left out
+		 * (counted): a wrong day count can make a single call walk millions of months */
+		memset(failed, 0, sizeof(failed));
+		for (int side = 0; side < 2; side++) {
+			const struct rinst_s a = {bnd[k].day + side, K_ALLDAY, 0};
+			const echs_instant_t A = r2i(a);
+
+			vd_beat();
+			for (size_t w = 0; w < sizeof(whole) / sizeof(*whole); w++) {
+				for (size_t f = 0; f < sizeof(frac) / sizeof(*frac); f++) {
+					for (int sg = 0; sg < 2; sg++) {
+						for (int via = 0; via < 2; via++) {
+							const int64_t mag = whole[w] * MSDAY + frac[f];
+							const int64_t d = sg ? -mag : mag;
+							/* floor and ceiling of d in days */
+							const int64_t lo = a.day + (sg ? -whole[w] - 1 : whole[w]);
+							const int64_t hi = lo + 1;
+							echs_instant_t r;
+							int64_t rday = 0;
+							int err;
+
+							if (lo < Z0 || hi > Z1) continue;
+							if (failed[dcls(d)]) {
+								n_left++;
+								continue;
+							}
+							n_eval++, n_nontriv++;
+							if (via) {
+								echs_event_t e = {.from = A, .dur = {d}};
+								r = echs_event_range(e).end;
+							} else {
+								r = echs_instant_add(A, (echs_idiff_t){d});
+							}
+							if (r.H != ECHS_ALL_DAY || r.M || r.S || r.ms) {
+								err = 0;
+							} else if (r.m < 1 || r.m > 12 || r.d < 1 || (int)r.d > cv_mdays(r.y, r.m)) {
+								err = 1;
+							} else if ((rday = cv_days_from_civil(r.y, r.m, r.d)) < lo || rday > hi) {
+								err = 2;
+							} else {
+								/* the inverse clause on its own */
+								int64_t got = echs_instant_diff(r, A).d;
+								if (got == (rday - a.day) * MSDAY) continue;
+								failed[dcls(d)] = 1;
+								{
+									int id = ID(C_DIFFADD, K_ALLDAY, dcls(d), 3);
+									if (lv_hit(id)) {
+										char sig[120];
+										snprintf(sig, sizeof(sig), "diff-of-add/allday-subday/%s", dclsname[dcls(d)]);
+										lv_set(id, sig, "a=%s d=%" PRId64 " ms: add(a,d)=%s but diff(add(a,d),a)=%" PRId64 " ms, the two days are %" PRId64 " days apart",
+										       istr(A), d, istr(r), got, rday - a.day);
+									}
+								}
+								continue;
+							}
+							failed[dcls(d)] = 1;
+							{
+								static const char *en[] = {"not-all-day", "no-calendar-day", "a-day-or-more-off"};
+								int id = ID(C_ADD, K_ALLDAY, dcls(d), 3 + err);
+								if (lv_hit(id)) {
+									char sig[120];
+									struct cv_ymd_s l = cv_civil_from_days(lo), h = cv_civil_from_days(hi);
+									snprintf(sig, sizeof(sig), "add/allday-subday/%s/%s", dclsname[dcls(d)], en[err]);
+									lv_set(id, sig, "%s(%s, %" PRId64 " ms = %s%" PRId64 " d + %" PRId64 " ms) = %s (y=%u m=%u d=%u H=%u M=%u S=%u ms=%u), "
+									       "true elapsed time ends between all-day %04d-%02d-%02d and %04d-%02d-%02d",
+									       via ? "echs_event_range" : "echs_instant_add", istr(A), d, sg ? "-" : "", whole[w], frac[f], istr(r),
+									       (unsigned)r.y, (unsigned)r.m, (unsigned)r.d, (unsigned)r.H, (unsigned)r.M, (unsigned)r.S, (unsigned)r.ms,
+									       l.y, l.m, l.d, h.y, h.m, h.d);
+								}
+							}
+						}
+					}
+				}
+			}
+		}
+		lv_flush();
+		if (n_left) vd_count("inputs_left_out_after_a_failure_of_their_class", n_left);
+		n_left = 0;
+		vd_sh->evals += n_eval;
+		vd_sh->nontriv += n_nontriv;
+		vd_sample("dayfrac: all-day instants on both sides of %s|next x %ld (duration, entry point) inputs with a sub-day part, both signs",
+			  istr(r2i((struct rinst_s){bnd[k].day, K_ALLDAY, 0})), n_eval);
+	}
+}
+
 /* ---- mode=fixup ----------------------------------------------------- */
 static void
 mode_fixup(void)
@@ -672,6 +782,8 @@ enumerate(void)
 		mode_fixup();
 	} else if (!strcmp(mode, "epoch")) {
 		mode_epoch();
+	} else if (!strcmp(mode, "dayfrac")) {
+		mode_dayfrac();
 	} else {
 		fprintf(stderr, "unknown mode %s\n", mode);
 		_exit(3);
